@@ -1,20 +1,213 @@
 package main
 
+// Integer mode (DESIGN 3.6): inside vIntMode(true) every Go integer other than a byte is a
+// mathematical integer (SMT Int); each arithmetic operation adds the obligation that its exact
+// result fits the Go type, so that wrap-around semantics and integer semantics coincide once the
+// obligations are discharged. Masks are emitted as x - 2^k (x div 2^k); x | y is x + y under the
+// obligation that the operands are bit-disjoint (y a multiple of 2^k, 0 <= x < 2^k).
+
 import (
+	"fmt"
 	"go/token"
 	"go/types"
+	"math/big"
 )
 
-// Int mode (DESIGN 3.6) — implemented later.
+type intOblig struct {
+	T    *Term // must hold
+	Pos  string
+	Kind string
+}
 
-func (e *Engine) intBinop(st *State, op token.Token, x IntV, b Value, ta, tb types.Type) Value {
-	panic(abortSignal{"int mode not implemented"})
+var two = big.NewInt(2)
+
+func pow2(k int) *big.Int { return new(big.Int).Lsh(big.NewInt(1), uint(k)) }
+
+func typeRange(t types.Type) (lo, hi *big.Int) {
+	w, signed, _ := intWidth(t)
+	if signed {
+		return new(big.Int).Neg(pow2(w - 1)), new(big.Int).Sub(pow2(w-1), big.NewInt(1))
+	}
+	return big.NewInt(0), new(big.Int).Sub(pow2(w), big.NewInt(1))
+}
+
+func (e *Engine) fits(st *State, r *Term, t types.Type, what string) {
+	if r.IsConst() {
+		return
+	}
+	lo, hi := typeRange(t)
+	e.intObligs = append(e.intObligs, intOblig{T: And(IntCmp("<=", IntC(lo), r), IntCmp("<=", r, IntC(hi))), Pos: posOf(st, e), Kind: "fits-" + what})
+}
+
+// intOfByte turns a byte-valued bit-vector term into an Int term.
+func (e *Engine) intOfByte(t *Term) *Term {
+	if t.IsConst() {
+		return IntC64(int64(t.C))
+	}
+	if t.Op == "int2bv" {
+		return IntOp("mod", t.Args[0], IntC64(int64(1)<<uint(t.S.W)))
+	}
+	if v, ok := e.byteInts[t.ID]; ok {
+		return v
+	}
+	v := Var(fmt.Sprintf("byte_int_%d", t.ID), SInt)
+	e.byteInts[t.ID] = v
+	e.intAxioms = append(e.intAxioms, And(IntCmp("<=", IntC64(0), v), IntCmp("<=", v, IntC(new(big.Int).Sub(pow2(t.S.W), big.NewInt(1))))))
+	return v
 }
 
 func (e *Engine) bvToInt(t *Term, ty types.Type) *Term {
-	panic(abortSignal{"int mode not implemented"})
+	_, signed, _ := intWidth(ty)
+	if t.IsConst() {
+		if signed {
+			return IntC64(t.SVal())
+		}
+		return IntC(new(big.Int).SetUint64(t.C))
+	}
+	if signed && t.S.W > 8 {
+		panic(abortSignal{"int mode: symbolic signed bit-vector to Int"})
+	}
+	return e.intOfByte(t)
 }
 
 func (e *Engine) intConvert(st *State, v IntV, from, to types.Type) Value {
-	panic(abortSignal{"int mode not implemented"})
+	if isByteType(to) {
+		// byte(x) = x mod 256, kept as a bit-vector so that byte arrays stay bit-vector arrays
+		if v.T.IsConst() {
+			m := new(big.Int).Mod(v.T.Big, big.NewInt(256))
+			return BV{BVC(8, m.Uint64())}
+		}
+		return BV{TS.mk(&Term{Op: "int2bv", S: SBV(8), Args: []*Term{v.T}})}
+	}
+	if _, _, ok := intWidth(to); ok {
+		// integer to integer: the value must fit the target type
+		e.fits(st, v.T, to, "convert")
+		return v
+	}
+	panic(abortSignal{fmt.Sprintf("int mode: convert %s -> %s", from, to)})
+}
+
+func constShift(b Value) (int, bool) {
+	switch y := b.(type) {
+	case IntV:
+		if y.T.IsConst() && y.T.Big.IsInt64() {
+			return int(y.T.Big.Int64()), true
+		}
+	case BV:
+		if y.T.IsConst() {
+			return int(y.T.C), true
+		}
+	}
+	return 0, false
+}
+
+// trailing zero bits known syntactically (multiples of 2^k)
+func knownTZ(t *Term) int {
+	switch t.Op {
+	case "const":
+		if t.Big.Sign() == 0 {
+			return 1 << 20
+		}
+		return int(new(big.Int).Abs(t.Big).TrailingZeroBits())
+	case "i*":
+		n := 0
+		for _, a := range t.Args {
+			n += knownTZ(a)
+		}
+		return n
+	case "i+", "i-":
+		m := 1 << 20
+		for _, a := range t.Args {
+			if k := knownTZ(a); k < m {
+				m = k
+			}
+		}
+		return m
+	}
+	return 0
+}
+
+func (e *Engine) intBinop(st *State, op token.Token, x IntV, b Value, ta, tb types.Type) Value {
+	var y *Term
+	switch v := b.(type) {
+	case IntV:
+		y = v.T
+	case BV:
+		y = e.bvToInt(v.T, tb)
+	default:
+		panic(abortSignal{fmt.Sprintf("int mode: binop with %T", b)})
+	}
+	a := x.T
+	switch op {
+	case token.ADD:
+		r := IntOp("+", a, y)
+		e.fits(st, r, ta, "add")
+		return IntV{r}
+	case token.SUB:
+		r := IntOp("-", a, y)
+		e.fits(st, r, ta, "sub")
+		return IntV{r}
+	case token.MUL:
+		r := IntOp("*", a, y)
+		e.fits(st, r, ta, "mul")
+		return IntV{r}
+	case token.SHL:
+		k, ok := constShift(b)
+		if !ok {
+			panic(abortSignal{"int mode: shift by a symbolic amount"})
+		}
+		r := IntOp("*", a, IntC(pow2(k)))
+		e.fits(st, r, ta, "shl")
+		return IntV{r}
+	case token.SHR:
+		k, ok := constShift(b)
+		if !ok {
+			panic(abortSignal{"int mode: shift by a symbolic amount"})
+		}
+		return IntV{IntOp("div", a, IntC(pow2(k)))} // floor division = arithmetic shift
+	case token.AND:
+		// x & (2^k - 1)
+		m := y
+		if !m.IsConst() {
+			m, a = a, y
+		}
+		if m.IsConst() {
+			mp := new(big.Int).Add(m.Big, big.NewInt(1))
+			if m.Big.Sign() >= 0 && mp.BitLen() > 0 && new(big.Int).And(mp, m.Big).Sign() == 0 {
+				k := mp.BitLen() - 1
+				p := IntC(pow2(k))
+				return IntV{IntOp("-", a, IntOp("*", p, IntOp("div", a, p)))}
+			}
+		}
+		panic(abortSignal{"int mode: & with a non-mask operand"})
+	case token.OR:
+		// bit-disjoint operands: hi is a multiple of 2^k, 0 <= lo < 2^k
+		lo, hi := a, y
+		k := knownTZ(hi)
+		if k2 := knownTZ(lo); k2 > k {
+			lo, hi, k = y, a, k2
+		}
+		if k == 0 || k >= 1<<20 {
+			if k >= 1<<20 {
+				return IntV{lo}
+			}
+			panic(abortSignal{"int mode: | of operands not known to be bit-disjoint"})
+		}
+		e.intObligs = append(e.intObligs, intOblig{T: And(IntCmp("<=", IntC64(0), lo), IntCmp("<", lo, IntC(pow2(k)))), Pos: posOf(st, e), Kind: "or-disjoint"})
+		r := IntOp("+", lo, hi)
+		return IntV{r}
+	case token.EQL:
+		return Bool{Eq(a, y)}
+	case token.NEQ:
+		return Bool{Not(Eq(a, y))}
+	case token.LSS:
+		return Bool{IntCmp("<", a, y)}
+	case token.LEQ:
+		return Bool{IntCmp("<=", a, y)}
+	case token.GTR:
+		return Bool{IntCmp(">", a, y)}
+	case token.GEQ:
+		return Bool{IntCmp(">=", a, y)}
+	}
+	panic(abortSignal{"int mode: unsupported operator " + op.String()})
 }
